@@ -17,7 +17,7 @@ Theorem agree_fixed_spec c :
   0 <= c_n c -> 1 <= c_batch c -> 1 <= c_par c -> c_kind c <> KPushIn ->
   (o_copy c <> None -> c_kind c = KIdentity) ->
   (forall v v' o o', o_json c = Some (v, v', o, o') -> jsimgb v v' = true) ->
-  agree PCeilClip c = true -> spec_ok c = true.
+  agree PCeilClip false c = true -> spec_ok c = true.
 Proof.
   intros Hn Hb Hp Hk Hcp Hjs. unfold agree, predict, spec_ok.
   destruct (o_json c) as [[[[v v'] o] o']|] eqn:Ejs.
